@@ -20,6 +20,7 @@
   traversal): equality with `kv` says "exactly the decoded key/value pairs".
 -/
 import YtkProofs.Props
+import YtkProofs.GapProps
 import YtkModel.FileCodec
 import YtkModel.Generated.Tables
 
@@ -244,5 +245,66 @@ theorem nonvacuous_encode_parse :
 theorem nonvacuous_order_indep :
     unflattenList exKv.reverse = unflatten exKv ∧ fromPropertiesList exKvS.reverse = fromProperties exKvS := by
   decide +kernel
+
+/-! ## round 7: the DOM encoder round trip, and decoding independent of the order of the loaded pairs -/
+
+/-- DecoderFn(DomEncoderFn(c)) == the leaves of c: a container whose children are exactly the leaves of the
+    flat map `kv` (sorted, path-safe prefix-free keys, line-safe string values) is written by the DOM encoder
+    without failure, as the very text EncoderFn writes for `kv`, and reading that text back (reference parser)
+    and flattening the document gives back `kv`. -/
+theorem decode_domEncode (kv : AMap Scalar) (hs : AMap.Sorted kv) (hk : ∀ p ∈ kv, KeyOk p.1)
+    (hpf : PrefixFree kv) (hsafe : ∀ p ∈ kv, LineSafe p) (hstr : ∀ p ∈ kv, p.2.ty = "string") :
+    domEncoderFn (kv.map fun p => (p.1, Node.leaf p.2)) = .ok (encoderFn kv) ∧
+    flattenMap (fromReader parseSimple (encoderFn kv)) = kv :=
+  ⟨domEncoder_leaves kv, decode_encode kv hs hk hpf hsafe hstr⟩
+
+/-- … on the concrete map `exKvS` (its hypotheses: `nonvacuous_hypotheses`, `nonvacuous_sorted_linesafe`):
+    the DOM encoder writes four lines and the decoded, flattened document is `exKvS` again -/
+theorem nonvacuous_decode_domEncode :
+    domEncoderFn (exKvS.map fun p => (p.1, Node.leaf p.2)) = .ok "a.b=1\na.c.d=x\nk1=\nx-y.z_9=true\n" ∧
+    flattenMap (fromReader parseSimple "a.b=1\na.c.d=x\nk1=\nx-y.z_9=true\n") = exKvS := by
+  decide +kernel
+
+/-- Decoding does not depend on the order in which the loader (or Go's `Map()` iteration) yields the pairs,
+    for ALL key sets, conflicting ones included: two loaders / texts whose pair lists are permutations of
+    each other, with pairwise distinct keys, decode to the same document.  (Replaces the content-free
+    `decode_deterministic`; with duplicate keys the later pair wins, so the order of the duplicates matters.) -/
+theorem fromReader_perm (load₁ load₂ : String → List (String × String)) (t₁ t₂ : String)
+    (hp : (load₁ t₁).Perm (load₂ t₂)) (hn : ((load₁ t₁).map (·.1)).Nodup) :
+    fromReader load₁ t₁ = fromReader load₂ t₂ :=
+  Props.fromReader_perm load₁ load₂ t₁ t₂ hp hn
+
+/-- the underlying fact: `Map()` (`AMap.ofList`, a later duplicate wins) is order-independent on lists with
+    pairwise distinct keys -/
+theorem ofList_perm {α : Type} (L₁ L₂ : List (String × α)) (hp : L₁.Perm L₂)
+    (hn : (L₁.map (·.1)).Nodup) : AMap.ofList L₁ = AMap.ofList L₂ :=
+  Props.ofList_perm hp hn
+
+/-- … on the CONFLICTING key set {a=1, a.b=2} given as two texts with the lines in opposite orders: the
+    parsed pair lists are permutations with distinct keys, and both texts decode to `{a: {b: "2"}}` -/
+theorem nonvacuous_fromReader_perm :
+    (parseSimple "a=1\na.b=2\n").Perm (parseSimple "a.b=2\na=1\n") ∧
+    ((parseSimple "a=1\na.b=2\n").map (·.1)).Nodup ∧
+    parseSimple "a=1\na.b=2\n" ≠ parseSimple "a.b=2\na=1\n" ∧
+    fromReader parseSimple "a=1\na.b=2\n" = fromReader parseSimple "a.b=2\na=1\n" ∧
+    fromReader parseSimple "a.b=2\na=1\n" = [("a", .cont [("b", .leaf ⟨"string", "2"⟩)])] := by
+  have h1 : parseSimple "a=1\na.b=2\n" = [("a", "1"), ("a.b", "2")] := by decide
+  have h2 : parseSimple "a.b=2\na=1\n" = [("a.b", "2"), ("a", "1")] := by decide
+  refine ⟨?_, ?_, ?_, ?_, ?_⟩
+  · rw [h1, h2]; exact List.Perm.swap ..
+  · rw [h1]; decide
+  · rw [h1, h2]; decide
+  · decide +kernel
+  · decide +kernel
+
+/-- the distinct-keys hypothesis is needed: with a duplicate key the later pair wins, so two permutations of
+    the same pairs decode differently -/
+theorem fromReader_perm_dup_counterexample :
+    (parseSimple "a=1\na=2\n").Perm (parseSimple "a=2\na=1\n") ∧
+    fromReader parseSimple "a=1\na=2\n" ≠ fromReader parseSimple "a=2\na=1\n" := by
+  have h1 : parseSimple "a=1\na=2\n" = [("a", "1"), ("a", "2")] := by decide
+  have h2 : parseSimple "a=2\na=1\n" = [("a", "2"), ("a", "1")] := by decide
+  refine ⟨?_, by decide +kernel⟩
+  rw [h1, h2]; exact List.Perm.swap ..
 
 end Ytk.C16
